@@ -2,7 +2,7 @@
 from pyvc.engine import Contract, contract
 from pyvc.worlds import Call
 from pyvc import spec as S
-from pyvc.values import And, Or, Not, Implies, Iff, compare, ite, binop, SObj, SBytes
+from pyvc.values import And, Or, Not, Implies, Iff, compare, ite, binop, SObj, SBytes, truth_val
 from contracts.c04_codec import OD
 
 ODE = "canopen.objectdictionary:ObjectDictionaryError"
@@ -233,3 +233,43 @@ class BitsAfterOtherView(Contract):
         return And(s.returned, S.eq(s.ret, exp))
 
     ensures = {"no-stale-copy": lambda s: BitsAfterOtherView.ok(s)}
+
+
+TEMPLATE_ATTRS = ("data_type", "unit", "factor", "min", "max", "default", "access_type", "description", "value_descriptions",
+                  "bit_definitions", "storage_location")
+
+
+@contract
+class ArrayTemplate(Contract):
+    """an array member that is not declared individually is created from the first element: same data type, unit,
+    scaling factor, limits, default, access type, descriptions, bit definitions and storage location"""
+    target = "canopen.objectdictionary:ODArray.__getitem__"
+    props = ("C20", "C08")
+    exits = ("return", "raise:KeyError")
+
+    def setup(self, w, case):
+        tmpl = w.obj(OD, data_type=0x03, unit="mm", factor=0.1, min=-5, max=500, default=7, access_type="ro", description="d",
+                     value_descriptions=w.dict({1: "one"}), bit_definitions=w.dict({"b": w.list([0, 1])}), storage_location="RAM",
+                     name="Element", index=0x2100, subindex=1, parent=None, value=None, relative=False, pdo_mappable=False)
+        arr = w.obj("canopen.objectdictionary:ODArray", name="List", index=0x2100, subindices=w.dict({1: tmpl}),
+                    names=w.dict({"Element": tmpl}), parent=None, storage_location=None)
+        sub = w.int("sub", 0, 300)
+        w.pre.update(tmpl=tmpl, sub=sub, arr=arr)
+        return Call(("getitem", arr), [sub])
+
+    @staticmethod
+    def ok(s):
+        p = s.pre
+        sub = p["sub"]
+        if bool(compare("==", sub, 1)):
+            return s.returned and s.ret is p["tmpl"]
+        if bool(Or(compare("<", sub, 1), compare(">", sub, 255))):
+            return s.raised(KeyError)
+        if not s.returned or not isinstance(s.ret, SObj):
+            return False
+        f, t = s.ret.fields, p["tmpl"].fields
+        it = s.w.interp
+        return And([S.eq(f["subindex"], sub), S.eq(f["index"], 0x2100), f.get("parent") is p["arr"]]
+                   + [truth_val(it.equals(f.get(a), t[a])) for a in TEMPLATE_ATTRS])
+
+    ensures = {"template-attributes-copied": lambda s: ArrayTemplate.ok(s)}
